@@ -103,7 +103,9 @@ ImplActuals(call) ==
     LET s == ImplSplit(ImplArgList(call))
         m == ImplMerge(MergeStart, s.items)
     IN [err |-> m.err, npos |-> m.npos, star |-> m.star, kws |-> ToSet(m.kws), skw |-> m.skw,
-        kwreq |-> \E j \in 1..Len(s.kwreq) : s.kwreq[j]]
+        kwreq |-> \E j \in 1..Len(s.kwreq) : s.kwreq[j],
+        maybe |-> {}]     \* keywords that are only POSSIBLY provided (PossibleArg labels): none for literal / opaque
+                          \* star arguments; StarPrep.tla builds actuals in which there are some
 
 (***************************************************************************)
 (* Impl, part 2: Signature.bind_arguments (signature.py:802-1136)          *)
@@ -143,12 +145,16 @@ ImplBranch(sig, a, st) ==
                          THEN (IF FixStarKw /\ st.sac THEN "PK_FromKeyword"     \* only with the proposed repair
                                ELSE "PK_StarAndKeyword")                        \* :897
                          ELSE "PK_FromStar")
-              ELSE IF nm \in a.kws THEN "PK_FromKeyword"                        \* :918
+              ELSE IF nm \in a.kws                                             \* :918
+                   THEN (IF nm \in a.maybe /\ ~p.dflt THEN "PK_MaybeMissing"    \* :921-931 not definitely_provided
+                         ELSE "PK_FromKeyword")
               ELSE IF a.skw THEN "PK_FromStarKwargs"                            \* :933
               ELSE IF p.dflt THEN "PK_Default"                                  \* :942
               ELSE "PK_Missing"                                                 \* :946
          [] p.kind = "ko" ->                                                    \* :951
-              IF nm \in a.kws THEN "KO_FromKeyword"                             \* :952
+              IF nm \in a.kws                                                  \* :952
+              THEN (IF nm \in a.maybe /\ ~p.dflt THEN "KO_MaybeMissing"         \* :962-972 not definitely_provided
+                    ELSE "KO_FromKeyword")
               ELSE IF a.skw THEN "KO_FromStarKwargs"                            \* :974
               ELSE IF p.dflt THEN "KO_Default"                                  \* :984
               ELSE "KO_Missing"                                                 \* :988
@@ -179,6 +185,8 @@ ImplEffect(b, sig, a, st) ==
          [] b = "PK_FromStarKwargs" -> [Bound(FromKw) EXCEPT !.skc = TRUE]                      \* :938-941
          [] b = "PK_Default" -> Bound("DEFAULT")                                                \* :943
          [] b = "PK_Missing" -> Fail                                                            \* :947
+         [] b = "PK_MaybeMissing" -> Fail                                                       \* :926 "may not be provided"
+         [] b = "KO_MaybeMissing" -> Fail                                                       \* :967
          [] b = "KO_FromKeyword" -> [Bound("K") EXCEPT !.kwc = @ \cup {nm}]                    \* :972-973
          [] b = "KO_FromStarKwargs" -> [Bound(FromKw) EXCEPT !.skc = TRUE, !.kwc = @ \cup {nm}] \* :979-983
          [] b = "KO_Default" -> Bound("DEFAULT")                                                \* :985
@@ -256,7 +264,7 @@ vars == <<case, stage, act, st, br>>
 NoStar == [kind |-> "none", n |-> 0]
 Blank == [sig |-> << >>,
           call |-> [pos |-> 0, star |-> NoStar, post |-> 0, kws |-> << >>, dstar |-> "none", dkeys |-> << >>]]
-NoActuals == [err |-> "", npos |-> 0, star |-> FALSE, kws |-> {}, skw |-> FALSE, kwreq |-> FALSE]
+NoActuals == [err |-> "", npos |-> 0, star |-> FALSE, kws |-> {}, skw |-> FALSE, kwreq |-> FALSE, maybe |-> {}]
 
 Init == case = Blank /\ stage = "params" /\ act = NoActuals /\ st = BindStart /\ br = ""
 
@@ -333,6 +341,8 @@ PosOrKw_FromKeyword == stage = "bind" /\ Step("PK_FromKeyword")
 PosOrKw_FromStarKwargs == stage = "bind" /\ Step("PK_FromStarKwargs")
 PosOrKw_Default == stage = "bind" /\ Step("PK_Default")
 PosOrKw_Missing == stage = "bind" /\ Step("PK_Missing")
+PosOrKw_MaybeMissing == stage = "bind" /\ Step("PK_MaybeMissing")      \* only reachable from StarPrep.tla's actuals
+KwOnly_MaybeMissing == stage = "bind" /\ Step("KO_MaybeMissing")
 KwOnly_FromKeyword == stage = "bind" /\ Step("KO_FromKeyword")
 KwOnly_FromStarKwargs == stage = "bind" /\ Step("KO_FromStarKwargs")
 KwOnly_Default == stage = "bind" /\ Step("KO_Default")
@@ -362,6 +372,7 @@ BindActions ==
     \/ VarPositional_Some \/ VarPositional_Empty \/ VarKeyword_Some \/ VarKeyword_Empty
     \/ Finish_TooManyPositional \/ Finish_ExtraKeywords \/ Finish_StarArgsUnused
     \/ Finish_StarKwargsUnused \/ Finish_Ok
+    \/ PosOrKw_MaybeMissing \/ KwOnly_MaybeMissing
 
 Next ==
     \/ AddParam \/ EndParams \/ ChoosePositional \/ ChooseKeywords \/ ChooseDstar
